@@ -165,7 +165,7 @@ def run_harnesses(names, tier, specs):
     cache_dir = os.path.join(WORK, "verdicts")
     os.makedirs(cache_dir, exist_ok=True)
     timeout_s = int(os.environ.get("VERIF_TIMEOUT", "1500" if tier == "quick" else "3600"))
-    mem_kb = int(os.environ.get("VERIF_MEM_KB", "14000000"))
+    mem_kb = int(os.environ.get("VERIF_MEM_KB", "20000000"))
     use_cache = os.environ.get("VERIF_NOCACHE") != "1"
     results = {}
     todo = []
@@ -183,7 +183,7 @@ def run_harnesses(names, tier, specs):
     def job(item):
         idx, (n, cpath) = item
         spec = specs.get(n, {})
-        r = run_one(n, (idx + WORKER_BASE) % NWORKERS, spec.get("timeout", timeout_s), mem_kb,
+        r = run_one(n, (idx + WORKER_BASE) % NWORKERS, spec.get("timeout", timeout_s), max(mem_kb, spec.get("mem_kb", 0)),
                     extra_args=spec.get("extra_args"), features=spec.get("features"), module=spec.get("module"),
                     submod=spec.get("submod", "verif"), memcmp=spec.get("memcmp"))
         if r["verdict"] in ("pass", "fail"):
